@@ -27,6 +27,8 @@ def worker_env(extra: Optional[dict] = None) -> dict:
     env["PYTHONHASHSEED"] = env.get("VFW_HASHSEED", "0")
     env["SQLFLUFF_VERIF"] = "1"
     pp = [ROOT]
+    if env.get("VFW_SRC"):  # development aid: run the checks against a scratch worktree's sources
+        pp.insert(0, env["VFW_SRC"])
     deps = os.path.join(ROOT, ".deps")
     if os.path.isdir(deps):
         pp.append(deps)
